@@ -5,6 +5,7 @@ Correspondence: Model/Linalg.v (Run/RunLinalg.v, T := float) vs rust/dual/linalg
 `rlharness linalg` on seeded systems; plus, on the real code only, the residual oracle
 (M x - v through the real dmul21_/fdmul21_) and row-permutation invariance."""
 from common import *  # noqa
+import math
 
 ALPHABET = ["x", "y", "z", "u", "v0", "v1"]
 KINDS = {0: "f64", 1: "Dual", 2: "Dual2"}
@@ -591,6 +592,8 @@ def run(ctx):
         if noise:
             ctx.count("singular systems: run, result not compared (outside the property)")
             ok = ca in ("Ok", "Panic") and cb != "Bad"
+            if ok:
+                continue
         if s.get("scaling"):
             for cl in s["scaling"]:
                 ctx.count("scaling: %s" % cl)
@@ -603,16 +606,31 @@ def run(ctx):
                 ok = len(va) == len(vb) and all(vec_close_scaled(x, y, kind, m, nr) for x, y in zip(va, vb))
             else:
                 ok = len(va) == len(vb) and all(vec_close(x, y) for x, y in zip(va, vb))
-            if not ok and op in (0, 1) and not s["malformed"] and len(va) == len(vb) == 1:
-                # the two solutions differ beyond 1e-9: a different (equally valid) pivot among exactly tied candidates, or a
-                # re-associated elimination step, moves the result by cond * epsilon - decide by the forward error bound
-                xmax = max([abs(g) for e in vb[0] for g in e if g == g and abs(g) != float("inf")] + [1.0])
-                tol = 1e-11 * max(1.0, s["cond"]) ** 2
-                if len(va[0]) == len(vb[0]) and all(len(ea) == len(eb) and all(
-                        (x == y) or (x == x and y == y and abs(x - y) <= tol * xmax) for x, y in zip(ea, eb))
-                        for ea, eb in zip(va[0], vb[0])):
+            if not ok and op in (0, 1) and not s["malformed"] and len(va) == len(vb) == 1 and len(va[0]) == len(vb[0]):
+                # The two solutions differ beyond 1e-9.  The model follows the code's arithmetic step by step, so on an
+                # ill-conditioned system (rows of a least-squares problem weighted by powers of ten, ...) a mathematically
+                # neutral rewrite - another pivot among exactly tied candidates, a reciprocal computed once - moves the
+                # result by cond * epsilon.  Decide by the forward-error bound of the system actually solved (A, or A^T A
+                # with least squares): relative to the largest component of the same derivative order.
+                r_, c_ = s["r"], s["c"]
+                Are = [[s["A"][i * c_ + j][0] for j in range(c_)] for i in range(r_)]
+                M = [[sum(Are[k][i] * Are[k][j] for k in range(r_)) for j in range(c_)] for i in range(c_)] if s["lsq"] else Are
+                cnd = cond_inf(M) if len(M) == len(M[0]) else float("inf")
+                rt = min(1e-3, 1e-9 + 1e-13 * cnd) if cnd == cnd else 1e-3
+                good = True
+                for lo, hi in orders(kind, m):
+                    blk = [x for e in va[0] + vb[0] for x in e[lo:hi] if x == x and abs(x) != float("inf")]
+                    big = max([abs(x) for x in blk] + [0.0])
+                    for ea, eb in zip(va[0], vb[0]):
+                        for x, y in zip(ea[lo:hi], eb[lo:hi]):
+                            if x == y or (x != x and y != y):
+                                continue
+                            if fclass(x) != fclass(y) or fclass(x) != "fin" or abs(x - y) > rt * big:
+                                good = False
+                if good:
                     ok = True
-                    ctx.count("agreement only within the conditioning bound (cond^2 * 1e-11)")
+                    ctx.count("agreement only within the forward-error bound 1e-13 * cond (cond = %s)" % (
+                        "1e%d" % int(math.log10(cnd)) if 0 < cnd < float("inf") else "inf"))
         if not ok:
             ctx.violation(
                 "the implementation and the proved model disagree on %s: implementation %s, model %s (solution values and "
